@@ -22,7 +22,9 @@ CLAUSES = (
     'complete; every change of membership of active_tasks sets '
     'active_tasks_changed before any TaskPool method that reads the cached '
     'get_tasks() list is called (the stall test, the runahead base point '
-    'and the future-offset scan see the true pool). Not decided: liveness ("never leaves a ready task unsubmitted '
+    'and the future-offset scan see the true pool). '
+    'The queued flag is written only by TaskState (never copied to a reload successor). '
+    'Not decided: liveness ("never leaves a ready task unsubmitted '
     'indefinitely").')
 
 S = 'scheduler'
